@@ -411,6 +411,26 @@ def run_impl(case):
     except Exception as ex:  # noqa: BLE001
         out["err"] = errkind(ex)
         out["msg"] = f"{type(ex).__name__}: {str(ex)[:200]}"
+    # a history: the engine's variables are replaced by NEW objects of the same names holding other values (and one
+    # variable is appended); the function, already evaluated once, must resolve to the engine's CURRENT variables,
+    # exactly like a function created afterwards
+    if out["value"] is not None:
+        try:
+            def shifted(v):
+                return [u + 1.0 for u in v] if isinstance(v, list) else v + 1.0
+            engine.input_variables = [fl.InputVariable(v.name) for v in ivs] + [fl.InputVariable("zz_added")]
+            engine.output_variables = [fl.OutputVariable(v.name) for v in ovs]
+            for v in engine.variables:
+                v.value = dec(shifted(case["evars"][v.name])) if v.name in case["evars"] else 0.0
+            with np.errstate(all="ignore"):
+                y2 = np.asarray(f.membership(dec(case["x"])), dtype=float)
+                g = fl.Function.create("g", case["text"], engine)
+                g.variables = dict(f.variables)
+                y3 = np.asarray(g.membership(dec(case["x"])), dtype=float)
+            if y2.shape != y3.shape or not np.allclose(y2, y3, rtol=1e-12, atol=0, equal_nan=True):
+                out["stale"] = f"after replacing the engine's variables the loaded function gives {y2.tolist()!r}, a function created on the modified engine gives {y3.tolist()!r}"
+        except Exception as ex:  # noqa: BLE001
+            out["stale"] = f"after replacing the engine's variables: {type(ex).__name__}: {str(ex)[:160]}"
     return out
 
 
@@ -474,6 +494,8 @@ def oracle(case):
         return False, f"'{case['text']}' read as {' '.join(r['postfix'])}, documented reading {' '.join(exp_pf)}"
     if r["value"] is None:
         return False, f"'{case['text']}' did not evaluate: {r['err']} ({r['msg']})"
+    if r.get("stale"):
+        return False, f"'{case['text']}' does not resolve its variables to the engine's current values: {r['stale']}"
     for i in range(nrows(case)):
         ev, x = row_env(case, i)
         env = dict(ev)
